@@ -28,6 +28,7 @@ type Case struct {
 	Err     error
 	Refs    []error
 	RefRecs []*R // nil for (node j) references
+	Toks    []Token
 }
 
 type Mismatch struct {
